@@ -65,6 +65,7 @@ func init() {
 			}
 			out = append(out, Instance{Scenario: "c15_start", Params: mustJSON(StartParams{Reset: "earliest", Mode: "infinite", PartialFile: true}), Bound: 0})
 			out = append(out, Instance{Scenario: "c12_duringopen", Params: mustJSON(struct{}{}), Bound: b, Shards: 4, Note: "a started session never silently covers only part of the assignment: a stream ending while Open() still waits for another vBucket is re-opened or counted"})
+			out = append(out, Instance{Scenario: "c15_slowfail", Params: mustJSON(struct{}{}), Bound: b, Shards: 4, Note: "the failing stream request is the last one to complete: every schedule within the bound"})
 			out = append(out, Instance{Scenario: "c12_reopenfail", Params: mustJSON(ReopenFailParams{Failures: 5}), Bound: 0, Note: "a vBucket that cannot be re-opened after the bounded retries terminates the client"})
 			out = append(out, Instance{Scenario: "c12_reopenfail", Params: mustJSON(ReopenFailParams{Failures: 4}), Bound: 0, Note: "four failed attempts and a successful fifth: streaming continues"})
 			for _, w := range []string{"valid", "metadata", "membership", "leaderelection"} {
@@ -273,4 +274,44 @@ func typesMain(p TypeParams) {
 		vrt.Failf("invalid %s type: the client started streaming", p.Which)
 	}
 	vrt.SetOutcome("still-running")
+}
+
+// c15_slowfail: the stream request of one assigned vBucket is never answered, so its failure (the client's
+// own time-out) is the LAST of the opens to complete; every schedule within the bound of the opener
+// goroutines and the thread waiting in Open(). The start-up must terminate - never report a started session
+// that covers only part of the assignment.
+func init() {
+	scenarios["c15_slowfail"] = func(raw json.RawMessage) *vrt.Scenario {
+		return &vrt.Scenario{Name: "c15_slowfail", FreeChoices: true, NoTimerAlt: true, MaxSteps: 400000, Main: func() {
+			resetGlobals()
+			o := EnvOpts{Vbs: 3, Nodes: 2, CheckpointType: "manual", WrapMeta: true}
+			c := NewCluster(&o)
+			victim := uint16(vrt.Choose(3, true, "unanswered-vb"))
+			kind := vrt.Choose(2, true, "failure")
+			c.Fault = func(r *gocbcore.SimRequest) gocbcore.SimAnswer {
+				if r.Kind == "openstream" && r.Vb == victim {
+					if kind == 0 {
+						return gocbcore.SimAnswer{Kind: "drop"}
+					}
+					return gocbcore.SimAnswer{Kind: "err", Err: &gocbcore.KeyValueError{InnerError: gocbcore.ErrTemporaryFailure, StatusCode: memd.StatusTmpFail}}
+				}
+				return gocbcore.SimAnswer{}
+			}
+			e := NewEnv(c, o)
+			vrt.SetOutcome(fmt.Sprintf("vb%d %v", victim, kind))
+			vrt.Window(true)
+			e.Stream.Open()
+			vrt.Window(false)
+			vrt.Failf("the stream request of vb%d %s, yet Open() returned and the session counts as started (streams open on the server: vb0=%v vb1=%v vb2=%v)",
+				victim, []string{"was never answered", "was rejected"}[kind], c.StreamOpen(0), c.StreamOpen(1), c.StreamOpen(2))
+		}, Classify: func(r *vrt.Result) []string {
+			if r.Status == vrt.StatusCrash {
+				return nil
+			}
+			if r.Status == vrt.StatusOK {
+				return nil // the Failf above carries the message
+			}
+			return []string{"start-up neither terminated nor started: status " + r.Status.String() + "; blocked: " + strings.Join(r.Blocked, " | ")}
+		}}
+	}
 }
